@@ -294,8 +294,13 @@ Print Assumptions c04_eval_panics_only_on_exponent_overflow_partial.
    None = budget exceeded.  With B = 10^9: a panic OF ANY CLASS (or running out of fuel) of the evaluator implies
    that the budget was exceeded, i.e. that some intermediate value carries an exponent beyond +-10^9 (a numeric
    text of a gigabyte: * and ^ limit exponents to +-100000, / and mean give -16).  Without such a size bound the
-   statement would be false of the model AND of goflow: number("0." & repeat("0", 2147483000) & "1") / 1E1000 makes
-   Decimal.QuoRem panic.  Hypotheses: the 79 unmodelled functions and the series part of ^ do not panic
+   statement is false of the model and of the decimal library: a number with an exponent near -2^31 handed in by the
+   CALLER (a context value; model-level witness quorem_exponent_panics) makes Decimal.QuoRem panic.  An EXPRESSION can
+   no longer build such a number from a bounded context: repeat gives at most 10^5 characters, &, replace and join at
+   most 10^6 bytes, ToXText refuses beyond 10^6, JSON exponents are limited to 1000, * and ^ to +-10^5 (the former
+   witness number("0." & repeat("0", 2147483000) & "1") / 1E1000 is an error VALUE since 72c2828 / 664d88e, in goflow
+   and in the model).  That no evaluation over a context within the budget leaves the budget is therefore plausible
+   in this model, but it is NOT proved here: the statement below stays conditional on the budget.  Hypotheses: the 79 unmodelled functions and the series part of ^ do not panic
    (satisfiable: budget_hypotheses_satisfiable); they are covered by the sweep only. *)
 Theorem c04_eval_panic_exceeds_exponent_budget : forall wclass regex ext frac_pow lookup_function,
   ext_total ext -> frac_pow_total frac_pow ->
@@ -421,12 +426,14 @@ Theorem c04_repeat_over_limit_is_error : forall t count,
 Proof. exact repeat_body_over_limit. Qed.
 Print Assumptions c04_repeat_over_limit_is_error.
 
-(* ---- size limits (664d88e, 1fba51e).  A text that &, replace or join returns is at most 1000000 bytes (UTF-8 length:
+(* ---- size limits (664d88e, 1fba51e, 18919b0, e7a2eae).  Each of these theorems restates a guard of the model ("the limit is
+   there, beyond it the result is the error value"); none is the property's clause "time bounded by sizes".  A text that &, replace or join returns is at most 1000000 bytes (UTF-8 length:
    `(x) => x & x` applied 36 times asked for 64 GB); concat returns at most 1000000 items; the digits of the canonical
    factors of a product add up to at most 100000 (`(x) => x * x` applied 40 times doubled the digits each time: the
    exponent limit did not see it); what foreach collects costs at most 1000000 in total; a value that is converted
-   to text (ToXText) is nil or costs at most 1000000, where the cost (value_cost: types.spendSize) counts every
-   value, its nesting depth, the bytes of texts and property names and the digits of numbers — a value can hold the
+   to text (ToXText) is nil, a text (returned as it is, 18919b0) or costs at most 1000000, where the cost (value_cost:
+   types.spendSize) counts every value, the bytes of texts and property names and the digits of numbers (not the
+   nesting depth, e7a2eae) — a value can hold the
    same sub-value many times over, so neither its memory nor the expression that built it bound what is written ---- *)
 Theorem c04_concatenation_result_bounded : forall frac_pow x y, text_within (eval_binop frac_pow OConcat x y).
 Proof. exact concat_op_within. Qed.
@@ -456,7 +463,7 @@ Proof. exact foreach_result_within. Qed.
 Print Assumptions c04_foreach_result_bounded.
 
 Theorem c04_converted_value_within_size_budget : forall v t,
-  to_text v = Ok t -> v = VNil \/ (value_cost false 0 v <= max_render_size)%Z.
+  to_text v = Ok t -> v = VNil \/ (exists s, v = VText s) \/ (value_cost false 0 v <= max_render_size)%Z.
 Proof. exact to_text_within_budget. Qed.
 Print Assumptions c04_converted_value_within_size_budget.
 
